@@ -65,6 +65,9 @@ func (c05) Generate(prop string, r *simrt.RNG, tier string, run int) *simrt.Scen
 			if r.Chance(1, 2) {
 				bits |= BitMemVal
 			}
+			if r.Chance(1, 12) {
+				sc.Knobs["realmeminit"] = 1
+			}
 		}
 	}
 	sc.Knobs["cfg"] = bits
